@@ -591,9 +591,11 @@ func (c *Check) valueUnitPairing() {
 
 // R7: CommonValueType keeps the finest unit seen so far and compares every further unit
 // against that running minimum, not against a value fixed before the loop.
-func (c *Check) runningMinimum() {
+func (c *Check) runningMinimum() { c.runningMinimumAs("C15-R7") }
+
+func (c *Check) runningMinimumAs(rule string) {
 	p := c.P
-	f := c.anchorFn("C15-R7", "internal/measurement", "CommonValueType")
+	f := c.anchorFn(rule, "internal/measurement", "CommonValueType")
 	if f == nil {
 		return
 	}
@@ -606,7 +608,7 @@ func (c *Check) runningMinimum() {
 		}
 	}
 	if scale == nil {
-		c.undecided("C15-R7", "running-min", p.relFile(f.Pos()), "no unit comparison (call of Scale) inside CommonValueType's loop")
+		c.undecided(rule, "running-min", p.relFile(f.Pos()), "no unit comparison (call of Scale) inside CommonValueType's loop")
 		return
 	}
 	pos := p.relFile(scale.Pos())
@@ -633,9 +635,9 @@ func (c *Check) runningMinimum() {
 	}
 	switch {
 	case phiBase == nil:
-		c.bad("C15-R7", "running-min", pos, "CommonValueType compares each unit with a value fixed outside the loop instead of the finest unit found so far: with three or more profiles the result depends on their order and a coarser unit can win (finer profiles are then scaled down and lose samples)")
+		c.bad(rule, "running-min", pos, "CommonValueType compares each unit with a value fixed outside the loop instead of the finest unit found so far: with three or more profiles the result depends on their order and a coarser unit can win (finer profiles are then scaled down and lose samples)")
 	case other == nil:
-		c.undecided("C15-R7", "running-min", pos, "second operand of the unit comparison not recognised")
+		c.undecided(rule, "running-min", pos, "second operand of the unit comparison not recognised")
 	default:
 		upd := false
 		for _, e := range phiBase.Edges {
@@ -644,9 +646,9 @@ func (c *Check) runningMinimum() {
 			}
 		}
 		if upd {
-			c.ok("C15-R7", "running-min", pos, "every unit is compared against the running minimum", "Scale's reference operand reads the loop-carried minimum, which is replaced by the compared element")
+			c.ok(rule, "running-min", pos, "every unit is compared against the running minimum", "Scale's reference operand reads the loop-carried minimum, which is replaced by the compared element")
 		} else {
-			c.bad("C15-R7", "running-min", pos, "the running minimum of CommonValueType is never replaced by the element it was compared with")
+			c.bad(rule, "running-min", pos, "the running minimum of CommonValueType is never replaced by the element it was compared with")
 		}
 	}
 }
@@ -709,6 +711,10 @@ func (c *Check) sniffNormalisation() (func(string) string, string) {
 	suffix := ""
 	threshold := int64(-1)
 	measure := ""
+	isLower := func(v ssa.Value) bool {
+		call, ok := v.(*ssa.Call)
+		return ok && call.Call.StaticCallee() != nil && call.Call.StaticCallee().String() == "strings.ToLower"
+	}
 	for _, b := range f.Blocks {
 		for _, ins := range b.Instrs {
 			switch x := ins.(type) {
@@ -719,6 +725,13 @@ func (c *Check) sniffNormalisation() (func(string) string, string) {
 						lower = true
 					case "strings.TrimSuffix":
 						suffix, _ = constString(x.Call.Args[1])
+						// the model below lower-cases first: the code must too, or an upper-case
+						// plural ("BYTES") keeps its S and is not recognised
+						if suffix == strings.ToLower(suffix) && !mustDepend(x.Call.Args[0], isLower) {
+							c.bad("C15-R1", "normalisation:order", p.relFile(x.Pos()), "sniffUnit strips the plural suffix "+fmt.Sprintf("%q", suffix)+" from text that has not been lower-cased yet: an upper-case plural spelling (\"BYTES\", \"HOURS\") keeps its S, is not found among the aliases and is treated as an unknown unit (no conversion, profiles rejected as incompatible)")
+						} else {
+							c.ok("C15-R1", "normalisation:order", p.relFile(x.Pos()), "the plural suffix is stripped from the lower-cased spelling", "TrimSuffix's input is the result of strings.ToLower on every path")
+						}
 					}
 				}
 			case *ssa.BinOp:
